@@ -8,6 +8,7 @@ let () =
    | "tour" -> Tour.run st b
    | "schedcheck" -> Schedobs.run_check st b
    | "outcheck" -> Outcheck.run st b
+   | "trans" -> Trans.run st b
    | _ -> prerr_endline ("unknown command " ^ cmd); exit 2);
   let oc = open_out Sys.argv.(3) in
   Buffer.output_buffer oc b; close_out oc
